@@ -343,7 +343,9 @@ func superviseShard(c Check, id string, tier Tier, shard, nshards int, seed uint
 		killedForHang := false
 		// hang watchdog
 		stop := make(chan struct{})
+		wdDone := make(chan struct{})
 		go func() {
+			defer close(wdDone)
 			_, _, last := j.Get()
 			lastChange := time.Now()
 			t := time.NewTicker(time.Second)
@@ -389,6 +391,7 @@ func superviseShard(c Check, id string, tier Tier, shard, nshards int, seed uint
 		}
 		werr := cmd.Wait()
 		close(stop)
+		<-wdDone // the watchdog reads the journal mapping: it must be gone before the mapping is
 		if done && werr == nil {
 			return
 		}
